@@ -184,8 +184,9 @@ P['C19']={
 P['C18']={
  "functions":["oidc.sessionStoreFactory.PreRun","oidc.NewMemoryStore"],
  "refines":["oidc.sessionStoreFactory.Get"],
- "posts":{A+"getCookieName":[], H+"Process":["ok_justified","ok_not_timed_out","deny_content"], H+"retrieveTokens":["exchange_request"], H+"refreshToken":["request"], H+"redirectToIDP":["location","redirect"]},
- "required":["oidc.sessionStoreFactory.PreRun:post:timeouts_wired_single", "oidc.sessionStoreFactory.PreRun:post:timeouts_wired@", "oidc.sessionStoreFactory.PreRun:inv-step:loop2.wired2", "oidc.sessionStoreFactory.PreRun:inv-step:loop2.cur_wired","oidc.sessionStoreFactory.PreRun:post:exclusive","oidc.sessionStoreFactory.Get:refine:SessionStoreFactory.Get.which"],
+ "posts":{A+"getCookieName":[], H+"Process":["ok_justified","ok_not_timed_out","deny_content"], H+"retrieveTokens":["exchange_request"], H+"refreshToken":["request"], H+"redirectToIDP":["location","redirect"],
+   "server.ExtAuthZFilter.Check":["judged"], A+"NewOIDCHandler":["handler","client"]},
+ "required":["server.ExtAuthZFilter.Check:inv-step:loop2.logged", A+"NewOIDCHandler:post:handler", "oidc.sessionStoreFactory.PreRun:post:timeouts_wired_single", "oidc.sessionStoreFactory.PreRun:post:timeouts_wired@", "oidc.sessionStoreFactory.PreRun:inv-step:loop2.wired2", "oidc.sessionStoreFactory.PreRun:inv-step:loop2.cur_wired","oidc.sessionStoreFactory.PreRun:post:exclusive","oidc.sessionStoreFactory.Get:refine:SessionStoreFactory.Get.which"],
  "note":"own endpoints / credentials / cookie prefix: every IdP request, redirect and cookie is pinned to the handler's own configuration by the C04/C11/C13/C05 postconditions; which store (with which timeouts) a filter gets is PreRun's postcondition — it holds for configurations with a single OIDC filter and fails otherwise (known finding K3)"}
 P['C03']={
  "posts":{
